@@ -2873,3 +2873,521 @@ mod tests {
         assert_eq!(box_data[20..24], [0, 0, 0x0b, 0xb8]); // sample_offset = 3000
     }
 }
+
+// ============================================================================
+// Verification hooks (cargo feature `verif`): call-through wrappers around the
+// private kernels of this module, fixed-capacity state constructors and
+// read-only digests. Nothing here is compiled unless the feature is enabled.
+// ============================================================================
+#[cfg(feature = "verif")]
+#[doc(hidden)]
+#[allow(private_interfaces, clippy::too_many_arguments, static_mut_refs)]
+pub mod verif {
+    use super::*;
+
+    // ---- opaque state constructors / accessors --------------------------------
+    pub fn mk_sample(
+        pts: u64,
+        dts: u64,
+        data: Vec<u8>,
+        is_keyframe: bool,
+        duration: Option<u32>,
+    ) -> SampleInfo {
+        SampleInfo {
+            pts,
+            dts,
+            data,
+            is_keyframe,
+            duration,
+        }
+    }
+
+    pub fn mk_tables(
+        durations: Vec<u32>,
+        sizes: Vec<u32>,
+        keyframes: Vec<u32>,
+        chunk_offsets: Vec<u32>,
+        samples_per_chunk: u32,
+        cts_offsets: Vec<i32>,
+        has_bframes: bool,
+    ) -> SampleTables {
+        SampleTables {
+            durations,
+            sizes,
+            keyframes,
+            chunk_offsets,
+            samples_per_chunk,
+            cts_offsets,
+            has_bframes,
+        }
+    }
+
+    pub fn tables_from_samples(
+        samples: &[SampleInfo],
+        chunk_offsets: Vec<u32>,
+        samples_per_chunk: u32,
+        fallback_duration: Option<u32>,
+    ) -> SampleTables {
+        SampleTables::from_samples(samples, chunk_offsets, samples_per_chunk, fallback_duration)
+    }
+
+    pub fn t_durations(t: &SampleTables) -> &[u32] {
+        &t.durations
+    }
+    pub fn t_sizes(t: &SampleTables) -> &[u32] {
+        &t.sizes
+    }
+    pub fn t_keyframes(t: &SampleTables) -> &[u32] {
+        &t.keyframes
+    }
+    pub fn t_chunk_offsets(t: &SampleTables) -> &[u32] {
+        &t.chunk_offsets
+    }
+    pub fn t_samples_per_chunk(t: &SampleTables) -> u32 {
+        t.samples_per_chunk
+    }
+    pub fn t_cts_offsets(t: &SampleTables) -> &[i32] {
+        &t.cts_offsets
+    }
+    pub fn t_has_bframes(t: &SampleTables) -> bool {
+        t.has_bframes
+    }
+    pub fn t_total_duration(t: &SampleTables) -> u64 {
+        t.total_duration()
+    }
+
+    /// Writer state built without reallocation: exactly NV / NA pushes into
+    /// vectors of that capacity.
+    pub fn writer_with_state<W: Write, const NV: usize, const NA: usize>(
+        sink: W,
+        video_codec: VideoCodec,
+        video: [SampleInfo; NV],
+        audio_track: Option<Mp4AudioTrack>,
+        audio: [SampleInfo; NA],
+        video_prev_pts: Option<u64>,
+        video_last_delta: Option<u32>,
+        audio_prev_pts: Option<u64>,
+        audio_last_delta: Option<u32>,
+        video_config: Option<VideoConfig>,
+        finalized: bool,
+        bytes_written: u64,
+    ) -> Mp4Writer<W> {
+        let mut video_samples = Vec::with_capacity(NV);
+        for s in video {
+            video_samples.push(s);
+        }
+        let mut audio_samples = Vec::with_capacity(NA);
+        for s in audio {
+            audio_samples.push(s);
+        }
+        Mp4Writer {
+            writer: sink,
+            video_codec,
+            video_samples,
+            video_prev_pts,
+            video_last_delta,
+            video_config,
+            audio_track,
+            audio_samples,
+            audio_prev_pts,
+            audio_last_delta,
+            finalized,
+            bytes_written,
+        }
+    }
+
+    /// Read-only digest of every scalar field plus the last sample of each track.
+    #[derive(Clone, Copy, Debug, PartialEq, Eq)]
+    pub struct SampleDigest {
+        pub pts: u64,
+        pub dts: u64,
+        pub len: usize,
+        pub first: u8,
+        pub is_keyframe: bool,
+        pub duration: Option<u32>,
+    }
+
+    #[derive(Clone, Copy, Debug, PartialEq, Eq)]
+    pub struct WriterDigest {
+        pub video_count: usize,
+        pub audio_count: usize,
+        pub video_prev_pts: Option<u64>,
+        pub video_last_delta: Option<u32>,
+        pub audio_prev_pts: Option<u64>,
+        pub audio_last_delta: Option<u32>,
+        pub video_config_present: bool,
+        pub audio_enabled: bool,
+        pub finalized: bool,
+        pub bytes_written: u64,
+        pub last_video: Option<SampleDigest>,
+        pub last_audio: Option<SampleDigest>,
+    }
+
+    fn sample_digest(s: &SampleInfo) -> SampleDigest {
+        SampleDigest {
+            pts: s.pts,
+            dts: s.dts,
+            len: s.data.len(),
+            first: s.data.first().copied().unwrap_or(0),
+            is_keyframe: s.is_keyframe,
+            duration: s.duration,
+        }
+    }
+
+    pub fn writer_digest<W>(w: &Mp4Writer<W>) -> WriterDigest {
+        WriterDigest {
+            video_count: w.video_samples.len(),
+            audio_count: w.audio_samples.len(),
+            video_prev_pts: w.video_prev_pts,
+            video_last_delta: w.video_last_delta,
+            audio_prev_pts: w.audio_prev_pts,
+            audio_last_delta: w.audio_last_delta,
+            video_config_present: w.video_config.is_some(),
+            audio_enabled: w.audio_track.is_some(),
+            finalized: w.finalized,
+            bytes_written: w.bytes_written,
+            last_video: w.video_samples.last().map(sample_digest),
+            last_audio: w.audio_samples.last().map(sample_digest),
+        }
+    }
+
+    pub fn video_sample_digest<W>(w: &Mp4Writer<W>, idx: usize) -> Option<SampleDigest> {
+        w.video_samples.get(idx).map(sample_digest)
+    }
+    pub fn audio_sample_digest<W>(w: &Mp4Writer<W>, idx: usize) -> Option<SampleDigest> {
+        w.audio_samples.get(idx).map(sample_digest)
+    }
+    pub fn video_sample_data<W>(w: &Mp4Writer<W>, idx: usize) -> Option<&[u8]> {
+        w.video_samples.get(idx).map(|s| s.data.as_slice())
+    }
+    pub fn audio_sample_data<W>(w: &Mp4Writer<W>, idx: usize) -> Option<&[u8]> {
+        w.audio_samples.get(idx).map(|s| s.data.as_slice())
+    }
+    pub fn video_config<W>(w: &Mp4Writer<W>) -> Option<&VideoConfig> {
+        w.video_config.as_ref()
+    }
+    pub fn sink<W>(w: &Mp4Writer<W>) -> &W {
+        &w.writer
+    }
+    pub fn video_sample_count<W: Write>(w: &Mp4Writer<W>) -> u64 {
+        w.video_sample_count()
+    }
+    pub fn audio_sample_count<W: Write>(w: &Mp4Writer<W>) -> u64 {
+        w.audio_sample_count()
+    }
+    pub fn bytes_written<W: Write>(w: &Mp4Writer<W>) -> u64 {
+        w.bytes_written()
+    }
+    pub fn max_end_pts<W: Write>(w: &Mp4Writer<W>) -> Option<u64> {
+        w.max_end_pts()
+    }
+
+    /// (pts, is_video, index) triples of the interleave schedule.
+    pub fn interleave_schedule<W: Write>(w: &Mp4Writer<W>) -> Vec<(u64, bool, usize)> {
+        let s = w.compute_interleave_schedule();
+        let mut out = Vec::with_capacity(s.len());
+        for (pts, kind, idx) in s {
+            out.push((pts, matches!(kind, TrackKind::Video), idx));
+        }
+        out
+    }
+
+    // ---- recording stand-in for build_moov_box (used with kani::stub) ---------
+    pub const MOOV_REC_MAX: usize = 4;
+    #[derive(Clone, Copy, Debug, PartialEq, Eq)]
+    pub struct TableRec {
+        pub n: usize,
+        pub durations: [u32; MOOV_REC_MAX],
+        pub sizes: [u32; MOOV_REC_MAX],
+        pub n_keyframes: usize,
+        pub keyframes: [u32; MOOV_REC_MAX],
+        pub n_chunks: usize,
+        pub chunk_offsets: [u32; MOOV_REC_MAX],
+        pub samples_per_chunk: u32,
+        pub n_cts: usize,
+        pub cts_offsets: [i32; MOOV_REC_MAX],
+        pub has_bframes: bool,
+    }
+    impl TableRec {
+        pub const EMPTY: TableRec = TableRec {
+            n: 0,
+            durations: [0; MOOV_REC_MAX],
+            sizes: [0; MOOV_REC_MAX],
+            n_keyframes: 0,
+            keyframes: [0; MOOV_REC_MAX],
+            n_chunks: 0,
+            chunk_offsets: [0; MOOV_REC_MAX],
+            samples_per_chunk: 0,
+            n_cts: 0,
+            cts_offsets: [0; MOOV_REC_MAX],
+            has_bframes: false,
+        };
+    }
+    #[derive(Clone, Copy, Debug, PartialEq, Eq)]
+    pub struct MoovCall {
+        pub width: u32,
+        pub height: u32,
+        pub video: TableRec,
+        pub audio: Option<TableRec>,
+        pub metadata_present: bool,
+    }
+    pub static mut MOOV_STUB_LEN: usize = 16;
+    pub static mut MOOV_CALLS: usize = 0;
+    pub static mut MOOV_LAST: [Option<MoovCall>; 2] = [None, None];
+
+    fn rec(t: &SampleTables) -> TableRec {
+        let mut r = TableRec::EMPTY;
+        r.n = t.sizes.len();
+        r.n_keyframes = t.keyframes.len();
+        r.n_chunks = t.chunk_offsets.len();
+        r.n_cts = t.cts_offsets.len();
+        r.samples_per_chunk = t.samples_per_chunk;
+        r.has_bframes = t.has_bframes;
+        let mut i = 0;
+        while i < MOOV_REC_MAX {
+            if i < t.durations.len() {
+                r.durations[i] = t.durations[i];
+            }
+            if i < t.sizes.len() {
+                r.sizes[i] = t.sizes[i];
+            }
+            if i < t.keyframes.len() {
+                r.keyframes[i] = t.keyframes[i];
+            }
+            if i < t.chunk_offsets.len() {
+                r.chunk_offsets[i] = t.chunk_offsets[i];
+            }
+            if i < t.cts_offsets.len() {
+                r.cts_offsets[i] = t.cts_offsets[i];
+            }
+            i += 1;
+        }
+        r
+    }
+
+    /// Same signature as `build_moov_box`; records its arguments and returns a
+    /// box-shaped vector of `MOOV_STUB_LEN` bytes tagged 0xA5 in its first byte.
+    pub fn moov_recording_stub(
+        video: &Mp4VideoTrack,
+        video_tables: &SampleTables,
+        audio: Option<(&Mp4AudioTrack, &SampleTables)>,
+        _video_config: &VideoConfig,
+        metadata: Option<&Metadata>,
+    ) -> Vec<u8> {
+        let call = MoovCall {
+            width: video.width,
+            height: video.height,
+            video: rec(video_tables),
+            audio: audio.map(|(_, t)| rec(t)),
+            metadata_present: metadata.is_some(),
+        };
+        unsafe {
+            if MOOV_CALLS < 2 {
+                MOOV_LAST[MOOV_CALLS] = Some(call);
+            }
+            MOOV_CALLS += 1;
+            let mut v = Vec::with_capacity(MOOV_STUB_LEN);
+            let mut i = 0;
+            while i < MOOV_STUB_LEN {
+                v.push(if i == 0 { 0xA5 } else { 0 });
+                i += 1;
+            }
+            v
+        }
+    }
+
+    // ---- call-through wrappers -------------------------------------------------
+    #[allow(clippy::result_large_err)]
+    pub fn adts_to_raw(frame: &[u8]) -> Result<&[u8], AdtsValidationError> {
+        super::adts_to_raw(frame)
+    }
+    pub fn build_moov_box(
+        video: &Mp4VideoTrack,
+        video_tables: &SampleTables,
+        audio: Option<(&Mp4AudioTrack, &SampleTables)>,
+        video_config: &VideoConfig,
+        metadata: Option<&Metadata>,
+    ) -> Vec<u8> {
+        super::build_moov_box(video, video_tables, audio, video_config, metadata)
+    }
+    pub fn build_audio_trak_box(
+        audio: &Mp4AudioTrack,
+        tables: &SampleTables,
+        metadata: Option<&Metadata>,
+    ) -> Vec<u8> {
+        super::build_audio_trak_box(audio, tables, metadata)
+    }
+    pub fn build_audio_tkhd_box() -> Vec<u8> {
+        super::build_audio_tkhd_box()
+    }
+    pub fn build_audio_mdia_box(
+        audio: &Mp4AudioTrack,
+        tables: &SampleTables,
+        metadata: Option<&Metadata>,
+    ) -> Vec<u8> {
+        super::build_audio_mdia_box(audio, tables, metadata)
+    }
+    pub fn build_audio_minf_box(audio: &Mp4AudioTrack, tables: &SampleTables) -> Vec<u8> {
+        super::build_audio_minf_box(audio, tables)
+    }
+    pub fn build_audio_stbl_box(audio: &Mp4AudioTrack, tables: &SampleTables) -> Vec<u8> {
+        super::build_audio_stbl_box(audio, tables)
+    }
+    pub fn build_audio_stsd_box(audio: &Mp4AudioTrack) -> Vec<u8> {
+        super::build_audio_stsd_box(audio)
+    }
+    pub fn build_mp4a_box(audio: &Mp4AudioTrack) -> Vec<u8> {
+        super::build_mp4a_box(audio)
+    }
+    pub fn build_esds_box(audio: &Mp4AudioTrack) -> Vec<u8> {
+        super::build_esds_box(audio)
+    }
+    pub fn build_audio_specific_config(sample_rate: u32, channels: u16) -> [u8; 2] {
+        super::build_audio_specific_config(sample_rate, channels)
+    }
+    pub fn build_opus_box(audio: &Mp4AudioTrack) -> Vec<u8> {
+        super::build_opus_box(audio)
+    }
+    pub fn build_dops_box(audio: &Mp4AudioTrack) -> Vec<u8> {
+        super::build_dops_box(audio)
+    }
+    pub fn build_trak_box(
+        video: &Mp4VideoTrack,
+        tables: &SampleTables,
+        video_config: &VideoConfig,
+        metadata: Option<&Metadata>,
+    ) -> Vec<u8> {
+        super::build_trak_box(video, tables, video_config, metadata)
+    }
+    pub fn build_mdia_box(
+        video: &Mp4VideoTrack,
+        tables: &SampleTables,
+        video_config: &VideoConfig,
+        metadata: Option<&Metadata>,
+    ) -> Vec<u8> {
+        super::build_mdia_box(video, tables, video_config, metadata)
+    }
+    pub fn build_minf_box(
+        video: &Mp4VideoTrack,
+        tables: &SampleTables,
+        video_config: &VideoConfig,
+    ) -> Vec<u8> {
+        super::build_minf_box(video, tables, video_config)
+    }
+    pub fn build_stbl_box(
+        video: &Mp4VideoTrack,
+        tables: &SampleTables,
+        video_config: &VideoConfig,
+    ) -> Vec<u8> {
+        super::build_stbl_box(video, tables, video_config)
+    }
+    pub fn build_stsd_box(video: &Mp4VideoTrack, video_config: &VideoConfig) -> Vec<u8> {
+        super::build_stsd_box(video, video_config)
+    }
+    pub fn build_stts_box(durations: &[u32]) -> Vec<u8> {
+        super::build_stts_box(durations)
+    }
+    pub fn build_stsc_box(samples_per_chunk: u32, chunk_count: u32) -> Vec<u8> {
+        super::build_stsc_box(samples_per_chunk, chunk_count)
+    }
+    pub fn build_stsz_box(sizes: &[u32]) -> Vec<u8> {
+        super::build_stsz_box(sizes)
+    }
+    pub fn build_stco_box(chunk_offsets: &[u32]) -> Vec<u8> {
+        super::build_stco_box(chunk_offsets)
+    }
+    pub fn build_stss_box(keyframes: &[u32]) -> Vec<u8> {
+        super::build_stss_box(keyframes)
+    }
+    pub fn build_ctts_box(cts_offsets: &[i32]) -> Vec<u8> {
+        super::build_ctts_box(cts_offsets)
+    }
+    pub fn build_avc1_box(video: &Mp4VideoTrack, c: &AvcConfig) -> Vec<u8> {
+        super::build_avc1_box(video, c)
+    }
+    pub fn build_avcc_box(c: &AvcConfig) -> Vec<u8> {
+        super::build_avcc_box(c)
+    }
+    pub fn build_hvc1_box(video: &Mp4VideoTrack, c: &HevcConfig) -> Vec<u8> {
+        super::build_hvc1_box(video, c)
+    }
+    pub fn build_hvcc_box(c: &HevcConfig) -> Vec<u8> {
+        super::build_hvcc_box(c)
+    }
+    pub fn build_av01_box(video: &Mp4VideoTrack, c: &Av1Config) -> Vec<u8> {
+        super::build_av01_box(video, c)
+    }
+    pub fn build_av1c_box(c: &Av1Config) -> Vec<u8> {
+        super::build_av1c_box(c)
+    }
+    pub fn build_vp09_box(video: &Mp4VideoTrack, c: &Vp9Config) -> Vec<u8> {
+        super::build_vp09_box(video, c)
+    }
+    pub fn build_vpcc_box(c: &Vp9Config) -> Vec<u8> {
+        super::build_vpcc_box(c)
+    }
+    pub fn build_vmhd_box() -> Vec<u8> {
+        super::build_vmhd_box()
+    }
+    pub fn build_dinf_box() -> Vec<u8> {
+        super::build_dinf_box()
+    }
+    pub fn build_dref_box() -> Vec<u8> {
+        super::build_dref_box()
+    }
+    pub fn build_url_box() -> Vec<u8> {
+        super::build_url_box()
+    }
+    pub fn encode_language_code(language: &str) -> [u8; 2] {
+        super::encode_language_code(language)
+    }
+    pub fn build_mdhd_box_with_timescale_and_duration(
+        timescale: u32,
+        duration: u64,
+        language: Option<&str>,
+    ) -> Vec<u8> {
+        super::build_mdhd_box_with_timescale_and_duration(timescale, duration, language)
+    }
+    pub fn build_hdlr_box() -> Vec<u8> {
+        super::build_hdlr_box()
+    }
+    pub fn build_sound_hdlr_box() -> Vec<u8> {
+        super::build_sound_hdlr_box()
+    }
+    pub fn build_smhd_box() -> Vec<u8> {
+        super::build_smhd_box()
+    }
+    pub fn build_tkhd_box(video: &Mp4VideoTrack) -> Vec<u8> {
+        super::build_tkhd_box(video)
+    }
+    pub fn build_tkhd_box_with_id(track_id: u32, volume: u16, width: u32, height: u32) -> Vec<u8> {
+        super::build_tkhd_box_with_id(track_id, volume, width, height)
+    }
+    pub fn build_ftyp_box() -> Vec<u8> {
+        super::build_ftyp_box()
+    }
+    pub fn build_mvhd_payload(duration_ms: u32) -> Vec<u8> {
+        super::build_mvhd_payload(duration_ms)
+    }
+    pub fn build_box(typ: &[u8; 4], payload: &[u8]) -> Vec<u8> {
+        super::build_box(typ, payload)
+    }
+    pub fn build_udta_box(metadata: &Metadata) -> Vec<u8> {
+        super::build_udta_box(metadata)
+    }
+    pub fn build_ilst_string_item(atom_type: &[u8; 4], value: &str) -> Vec<u8> {
+        super::build_ilst_string_item(atom_type, value)
+    }
+    pub fn build_meta_hdlr_box() -> Vec<u8> {
+        super::build_meta_hdlr_box()
+    }
+    pub fn format_unix_timestamp(unix_secs: u64) -> String {
+        super::format_unix_timestamp(unix_secs)
+    }
+    pub fn days_to_ymd(days: u64) -> (u32, u32, u32) {
+        super::days_to_ymd(days)
+    }
+    pub fn is_leap_year(year: u32) -> bool {
+        super::is_leap_year(year)
+    }
+}
